@@ -252,6 +252,209 @@ def gen_expr_cases(chk, n):
     return out
 
 
+# ================================================================================================
+# families written for histories the random generator does not produce
+# ================================================================================================
+def sibling_family():
+    """Several macros declared in one scope share free names; one of them re-binds such a name locally
+    (set, set-block, a parameter of that name, a parameter default, with, loop target, a call block's
+    caller) and AFTERWARDS the other macros - which read the name free - are called, directly, from
+    a call block, or after a recursive call.  What the reader renders must not depend on which
+    macros ran before (assignments inside macros are invisible outside).  Returns (body, ctx) pairs."""
+    X = "x"
+    rd = [("raw", "["), ("emit", ("var", X)), ("raw", "]")]
+    out = []
+    binders = {
+        # name -> (params, defaults, body of the binder, call arguments)
+        "set":      (["n"], [], [("set", X, ("int", 1)), ("emit", ("var", "n")), ("emit", ("var", X))], [("int", 7)]),
+        "set_if":   (["n"], [], [("if", [(("var", "n"), [("set", X, ("int", 2))])], None), ("emit", ("var", X))], [("int", 7)]),
+        "setblock": (["n"], [], [("setblock", X, [("raw", "sb")], None), ("emit", ("var", X))], [("int", 7)]),
+        "param":    ([X], [], [("emit", ("var", X)), ("emit", ("var", X))], [("str", "a")]),
+        "default":  ([X], [(X, ("int", 3))], [("emit", ("var", X))], []),
+        "with":     (["n"], [], [("with", [(X, ("int", 4))], [("emit", ("var", X))])], [("int", 7)]),
+        "loop":     (["n"], [], [("for", X, ("list", [("int", 5), ("int", 6)]), None, [("emit", ("var", X))], None, False)], [("int", 7)]),
+        "set_calls_reader": (["n"], [], [("set", X, ("int", 8)), ("emit", ("call", "show", [], []))], [("int", 7)]),
+    }
+    for bname, (params, defaults, bbody, cargs) in binders.items():
+        for own_free in (False, True):                 # the binder reads another outer name itself
+            fb = list(bbody) + ([("emit", ("var", "y"))] if own_free else [])
+            for reader_first in (True, False):
+                show = ("macro", "show", [], [], list(rd))
+                fill = ("macro", "fill", params, defaults, fb)
+                decls = [show, fill] if reader_first else [fill, show]
+                call_show = ("emit", ("call", "show", [], []))
+                call_fill = ("emit", ("call", "fill", cargs, []))
+                uses = {
+                    "plain": [call_show, call_fill, call_show, call_fill, call_show],
+                    "callblock": [call_show,
+                                  ("callblock", "fill", cargs, [("raw", "cb")]),
+                                  call_show],
+                    "from_caller": [("macro", "wrap", [], [], [("raw", "("), ("emit", ("call", "caller", [], [])), ("raw", ")")]),
+                                    call_fill,
+                                    ("callblock", "wrap", [], [call_show]),
+                                    call_show],
+                }
+                for uname, use in uses.items():
+                    for outer in ("ctx", "set_before", "set_after", "with", "loop", "in_macro"):
+                        core = decls + use
+                        if outer == "ctx":
+                            prog = core + list(rd)
+                        elif outer == "set_before":
+                            prog = [("set", X, ("str", "o")), ("set", "y", ("str", "p"))] + core + list(rd)
+                        elif outer == "set_after":
+                            prog = decls + [("set", X, ("str", "o"))] + use + list(rd)
+                        elif outer == "with":
+                            prog = [("with", [(X, ("str", "w"))], core + list(rd))] + list(rd)
+                        elif outer == "loop":
+                            prog = [("for", "i", ("list", [("int", 1), ("int", 2)]), None, core + list(rd), None, False)]
+                        else:                           # the macros are declared inside a macro body
+                            prog = [("macro", "outerm", ["q"], [], [("set", X, ("var", "q"))] + core + list(rd)),
+                                    ("emit", ("call", "outerm", [("str", "m")], [])),
+                                    ("emit", ("call", "outerm", [("str", "k")], []))] + list(rd)
+                        for ctx in ({"x": 42, "y": "Y"}, {}):
+                            out.append((prog, ctx))
+    # recursion: the caller of a call block placed after the recursive call sees the arguments of its own invocation
+    wrap = ("macro", "wrap", [], [], [("raw", "("), ("emit", ("call", "caller", [], [])), ("raw", ")")])
+    for after in (True, False):
+        for rebinding in ("none", "set", "with"):
+            rec = ("emit", ("call", "down", [("bin", "-", ("var", "n"), ("int", 1))], []))
+            cb_body = [("emit", ("var", "n"))] + ([("emit", ("var", "t"))] if rebinding != "none" else [])
+            cb = ("callblock", "wrap", [], cb_body)
+            inner = [rec, cb] if after else [cb, rec]
+            if rebinding == "set":
+                inner = [("set", "t", ("bin", "*", ("var", "n"), ("int", 10)))] + inner
+            elif rebinding == "with":
+                inner = [("with", [("t", ("bin", "*", ("var", "n"), ("int", 10)))], inner)]
+            down = ("macro", "down", ["n"], [], [("if", [(("cmp", ("var", "n"), [(">", ("int", 0))]), inner)], None)])
+            peek = ("macro", "peek", [], [], [("raw", "<"), ("emit", ("var", "n")), ("emit", ("var", "t")), ("raw", ">")])
+            for order in (0, 1):
+                decls = [wrap, down, peek] if order == 0 else [peek, wrap, down]
+                prog = decls + [("emit", ("call", "peek", [], [])), ("emit", ("call", "down", [("int", 3)], [])),
+                                ("emit", ("call", "peek", [], []))]
+                for ctx in ({}, {"n": "N", "t": "T"}):
+                    out.append((prog, ctx))
+    return out
+
+
+def _chars(s):
+    return ("list", [("str", ch) for ch in s])
+
+
+def equivalence_family(rng, n_random):
+    """Constructs outside the Lang syntax, each tied to the reference semantics through an element-wise
+    equivalent INSIDE the fragment: the engine's rendering of the left template must be what the
+    reference interpreter says about the right program (whose own rendering by the engine is compared as
+    for every other program).  Returns (kind, left_source, right_body, ctx).
+      * unpacking set / with: the right-hand side is evaluated completely before any target is bound:
+        `{% set a, b = E1, E2 %}` = `{% set t1 = E1 %}{% set t2 = E2 %}{% set a = t1 %}{% set b = t2 %}`
+      * a string iterates over its characters, with loop.* describing the position among them:
+        `{% for c in S %}` = `{% for c in [c1, .., cn] %}`"""
+    out = []
+    E = proggen.expr_src
+    B = proggen.body_src
+    a, b, c3 = ("var", "a"), ("var", "b"), ("var", "c")
+    pool = [a, b, ("bin", "+", a, b), ("bin", "-", b, a), ("bin", "*", a, ("int", 2)), ("int", 1), ("item", ("list", [b, a]), ("int", 0)),
+            ("ifexpr", ("cmp", a, [("<", b)]), b, a), ("filter", "abs", ("bin", "-", a, b), [])]
+    show = [("emit", a), ("raw", "/"), ("emit", b), ("raw", ";")]
+
+    def set_pair(e1, e2, style):
+        if style == 0: left = "{% set a, b = " + E(e1) + ", " + E(e2) + " %}"
+        elif style == 1: left = "{% set (a, b) = (" + E(e1) + ", " + E(e2) + ") %}"
+        elif style == 2: left = "{% set a, b = [" + E(e1) + ", " + E(e2) + "] %}"
+        else: left = "{% set a, b = (" + E(e1) + ", " + E(e2) + ") %}"
+        right = [("set", "t1", e1), ("set", "t2", e2), ("set", "a", ("var", "t1")), ("set", "b", ("var", "t2"))]
+        return left, right
+
+    def with_pair(e1, e2, inner_src, inner):
+        left = "{% with (a, b) = (" + E(e1) + ", " + E(e2) + ") %}" + inner_src + "{% endwith %}"
+        right = [("with", [("t1", e1), ("t2", e2), ("a", ("var", "t1")), ("b", ("var", "t2"))], inner)]
+        return left, right
+
+    pre = [("set", "a", ("int", 1)), ("set", "b", ("int", 2))]
+    cases = []
+    for e1 in pool:
+        for e2 in pool:
+            cases.append((e1, e2))
+    for i, (e1, e2) in enumerate(cases):
+        style = i % 4
+        l, r = set_pair(e1, e2, style)
+        out.append(("unpack_set", B(pre) + l + B(show), pre + r + show, {}))
+        if i % 3 == 0:      # repeated in a loop body: the running pair
+            l2 = B(pre) + "{% for i in [1, 2, 3] %}" + l + B(show) + "{% endfor %}" + B(show)
+            r2 = pre + [("for", "i", ("list", [("int", 1), ("int", 2), ("int", 3)]), None, r + show, None, False)] + show
+            out.append(("unpack_set", l2, r2, {}))
+        if i % 3 == 1:      # inside a macro, the names coming from the arguments
+            l3 = "{% macro m(a, b) %}" + l + B(show) + "{% endmacro %}{{ m(5, 8) }}" + B(show)
+            r3 = [("macro", "m", ["a", "b"], [], r + show), ("emit", ("call", "m", [("int", 5), ("int", 8)], []))] + show
+            out.append(("unpack_set", l3, r3, {"a": 3, "b": 4}))
+        if i % 3 == 2:
+            l4, r4 = with_pair(e1, e2, B(show), show)
+            out.append(("unpack_with", B(pre) + l4 + B(show), pre + r4 + show, {}))
+    # three targets, nested target, names from the context, twice in a row
+    l = "{% set a, b, c = c, a, b %}{{ a }}{{ b }}{{ c }}{% set a, b, c = c, a, b %}{{ a }}{{ b }}{{ c }}"
+    rot = [("set", "t1", c3), ("set", "t2", a), ("set", "t3", b), ("set", "a", ("var", "t1")), ("set", "b", ("var", "t2")), ("set", "c", ("var", "t3"))]
+    sh3 = [("emit", a), ("emit", b), ("emit", c3)]
+    out.append(("unpack_set", l, rot + sh3 + rot + sh3, {"a": "x", "b": "y", "c": "z"}))
+    l = "{% set a, (b, c) = b, (c, a) %}{{ a }}{{ b }}{{ c }}"
+    r = [("set", "t1", b), ("set", "t2", c3), ("set", "t3", a), ("set", "a", ("var", "t1")), ("set", "b", ("var", "t2")), ("set", "c", ("var", "t3"))] + sh3
+    out.append(("unpack_set", l, r, {"a": "x", "b": "y", "c": "z"}))
+    # a right-hand side that is not a literal (no element-wise shortcut possible): unpacked after full evaluation
+    l = "{% set p = [b, a] %}{% set a, b = p %}{{ a }}/{{ b }}"
+    r = [("set", "p", ("list", [b, a])), ("set", "t", ("var", "p")), ("set", "a", ("item", ("var", "t"), ("int", 0))),
+         ("set", "b", ("item", ("var", "t"), ("int", 1))), ("emit", a), ("raw", "/"), ("emit", b)]
+    out.append(("unpack_set", l, r, {"a": 1, "b": 2}))
+
+    # ---- strings as loop subjects ----
+    fields = ["index", "index0", "revindex", "revindex0", "first", "last", "length"]
+
+    def loop_body(which, var="ch"):
+        body = [("emit", ("var", var))]
+        for f in which:
+            body += [("raw", ":"), ("emit", ("attr", ("var", "loop"), f))]
+        return body + [("raw", ",")]
+    strings = ["", "a", "ab", "abc", "hello world", "x<y", "aXbXc"]
+    k = 0
+    for sv in strings:
+        for subj in ("ctx", "lit", "concat", "upper"):
+            if subj == "ctx": lsub, val, ctx = "s", sv, {"s": sv}
+            elif subj == "lit": lsub, val, ctx = proggen.q(sv), sv, {}
+            elif subj == "concat": lsub, val, ctx = '(s ~ "!z")', sv + "!z", {"s": sv}
+            else: lsub, val, ctx = "s|upper", sv.upper(), {"s": sv}
+            for variant in range(6):
+                k += 1
+                body = loop_body(fields if variant in (0, 3) else [fields[k % 7], fields[(k // 7 + 3) % 7]])
+                els = [("raw", "E")] if variant in (1, 3, 4) else None
+                flt_src, flt = "", None
+                if variant in (2, 4):
+                    flt = ("cmp", ("var", "ch"), [("!=", ("str", "b"))]); flt_src = " if " + E(flt)
+                if variant == 5:        # nested: the inner loop over the same string, loop of the outer one through a with
+                    body = [("with", [("o", ("attr", ("var", "loop"), "index"))],
+                             [("for", "d", None, None, [("emit", ("var", "o")), ("emit", ("var", "d")), ("emit", ("attr", ("var", "loop"), "revindex"))], None, False)]),
+                            ("emit", ("attr", ("var", "loop"), "last")), ("raw", ",")]
+                def render_left(bd):
+                    src = ""
+                    for st in bd:
+                        if st[0] == "with":
+                            inner = st[2][0]
+                            src += "{% with " + ", ".join(n + " = " + E(e) for n, e in st[1]) + " %}{% for d in " + lsub + " %}" + B(inner[4]) + "{% endfor %}{% endwith %}"
+                        else:
+                            src += proggen.stmt_src(st)
+                    return src
+                def fix_right(bd):
+                    res = []
+                    for st in bd:
+                        if st[0] == "with":
+                            inner = st[2][0]
+                            res.append(("with", st[1], [("for", "d", _chars(val), None, inner[4], None, False)]))
+                        else:
+                            res.append(st)
+                    return res
+                left = "{% for ch in " + lsub + flt_src + " %}" + render_left(body) + ("{% else %}" + B(els) if els is not None else "") + "{% endfor %}"
+                right = [("for", "ch", _chars(val), flt, fix_right(body), els, False)]
+                out.append(("string_loop", left, right, ctx))
+    return out
+
+
 def main():
     chk = Check("C03", "proof")
     chk.cov["trusted_base"] = TRUSTED_COMMON + ["Print Assumptions of the C03 theorems: see coverage.theorems",
@@ -270,9 +473,12 @@ def main():
         chk.violation("model build failed", {"theorem_or_correspondence": "coq/theories/Lang + L2 build", "log": blog[-1500:]}, True)
         chk.finish()
     progs = []      # (body, ctx, mode)
+    equiv = []      # (index of the right program in progs, kind, left source)
     if chk.replay:
         rp = json.load(open(chk.replay))["replay"]
         progs.append((eval(rp["ast"]), rp["context"], rp.get("mode", "lenient")))
+        if "left_template" in rp:
+            equiv.append((0, rp.get("kind", "equivalence"), rp["left_template"]))
         n_stmt = 1
     else:
         n = 30000 if chk.thorough else 2500
@@ -285,6 +491,14 @@ def main():
         for body, ctx in fam:
             progs.append((body, ctx, "lenient"))
         chk.cov["closure_family_cases"] = len(fam)
+        sib = sibling_family()
+        for body, ctx in sib:
+            progs.append((body, ctx, "lenient"))
+        chk.cov["sibling_family_cases"] = len(sib)
+        # constructs outside the Lang syntax, through their element-wise equivalents inside it
+        for kind, left, right, ctx in equivalence_family(chk.rng, 0):
+            equiv.append((len(progs), kind, left))
+            progs.append((right, ctx, "lenient"))
         n_stmt = len(progs)
         progs += gen_expr_cases(chk, 40000 if chk.thorough else 4000)
     reqs, cases, cases_pv, names = [], [], [], []
@@ -316,6 +530,22 @@ def main():
                         nontriv.add(reqs[i]["templates"]["main"] + json.dumps(progs[i][1], sort_keys=True) + progs[i][2])
                 elif e[:1] == [1]:
                     hist["render_err_" + ERR_NAMES.get(e[1], str(e[1]))] += 1
+    # ---- constructs outside the Lang syntax: engine on the left template vs interpreter on the equivalent program ----
+    eq_bad = []
+    eq_hist = collections.Counter()
+    if equiv:
+        ereqs = [{"templates": {"main": left}, "main": "main", "ctx": progs[i][1], "undefined": progs[i][2], "ops": ["render"]}
+                 for i, kind, left in equiv]
+        for rel in (False, True):
+            for (i, kind, left), r in zip(equiv, run_prog(ereqs, release=rel)):
+                e = expect(r)
+                if not rel:
+                    eq_hist[kind] += 1
+                    eq_hist[kind + ("_ok" if e[:1] == [0] else "_err")] += 1
+                    if e[:1] == [0] and e[1] > 0:
+                        nontriv.add(left + json.dumps(progs[i][1], sort_keys=True))
+                if e != model[i]:
+                    eq_bad.append((i, kind, left, rel, e))
     # ---- L2: model VM on the model stream vs interpreter (vs engine: `bad` above) ----
     vm_bad = [i for i in range(len(progs)) if mvm[i] != model[i]]
     # ---- L2: model stream vs real stream ----
@@ -388,6 +618,8 @@ def main():
     chk.cov["samples"] = [reqs[i]["templates"]["main"] for i in (0, n_stmt // 2, max(0, n_stmt - 1), len(reqs) - 1)]
     chk.cov["distribution"] = {"outcomes": dict(hist), "constructs": dict(kinds), "sizes": dict(sizes), "real_opcodes": dict(opc)}
     chk.cov["engine_vs_interpreter_disagreements"] = len(bad)
+    chk.cov["equivalence_family"] = {"cases": dict(eq_hist), "disagreements": len(eq_bad),
+                                     "rule": "engine(left template) = reference interpreter(element-wise equivalent inside the Lang syntax); unpacking set / with and loops over strings are tied to the reference semantics by this equivalence only"}
     chk.cov["kernel_crosscheck"] = {"cases": len(small) + len(small2), "agree": bool(kern_ok and kern2_ok)}
     chk.cov["l2"] = {"streams_compared": len(impl_dbg) - hist["not_compiled"], "instructions_compared": n_instr,
                      "stream_mismatch": len(mismatches), "stream_mismatch_harmless": len(harmless),
@@ -418,6 +650,19 @@ def main():
         chk.violation("engine output differs from the reference semantics",
                       {"template": src, "context": ctx, "mode": mode, "profile": "release" if rel else "debug", "engine": r.get("render", r),
                        "reference": ("".join(chr(c) for c in mm[2:]) if mm[:1] == [0] else mm), "ast": repr(small_body)})
+    seen_eq = set()
+    for i, kind, left, rel, e in eq_bad:
+        if kind in seen_eq:
+            continue
+        seen_eq.add(kind)
+        m = model[i]
+        chk.violation({"unpack_set": "unpacking set does not evaluate the right-hand side completely before binding the targets (differs from its sequential equivalent under the reference semantics)",
+                       "unpack_with": "unpacking with-assignment does not evaluate the right-hand side completely before binding the targets (differs from its sequential equivalent under the reference semantics)",
+                       "string_loop": "a loop over a string is not the loop over its characters (loop.* fields / items differ from the reference semantics of the character list)"}.get(kind, "engine output differs from the reference semantics of the equivalent program"),
+                      {"template": left, "left_template": left, "kind": kind, "context": progs[i][1], "mode": progs[i][2], "profile": "release" if rel else "debug",
+                       "engine": ("".join(chr(c) for c in e[2:]) if e[:1] == [0] else e),
+                       "reference": ("".join(chr(c) for c in m[2:]) if m[:1] == [0] else m),
+                       "equivalent_template": reqs[i]["templates"]["main"], "ast": repr(progs[i][0])})
     for i, entry in harmful[:3]:
         if entry["rendering_agrees"]:
             chk.violation("the compiler's instruction stream differs from the model compiler's and the verified balance checker rejects it",
